@@ -285,6 +285,123 @@ def cal_ok(I, fmt, t):
 
 
 # ---------------------------------------------------------------------------
+# structural (homomorphic) models of utf-8 encoding and of byte / code point sums  (A-HOM)
+# ---------------------------------------------------------------------------
+
+
+def flatten(t):
+    """pieces of a string term: Concat trees flattened, adjacent constants merged."""
+    out = []
+
+    def walk(x):
+        if z3.is_app(x) and x.decl().kind() == z3.Z3_OP_SEQ_CONCAT:
+            for c in x.children():
+                walk(c)
+        elif z3.is_string_value(x):
+            s = x.as_string()
+            from .verify import z3_unescape
+            s = z3_unescape(s)
+            if out and isinstance(out[-1], str):
+                out[-1] = out[-1] + s
+            elif s != "":
+                out.append(s)
+        else:
+            out.append(x)
+    walk(t)
+    return out
+
+
+DIGIT_CONSTS = {}  # ast id of a constant introduced for str(<int>) / '%0.3i' % <int>  ->  (constant, int term)
+
+
+def name_number(I, text_term, int_term, hint="num"):
+    """let-binding: a fresh string constant standing for the decimal text of an integer (keeps the terms the
+    solvers see small; the defining equation goes into the path condition)."""
+    d = z3.String(I.ctx.fresh_name(hint))
+    I.ctx.assume(SBool(d == text_term))
+    DIGIT_CONSTS[d.get_id()] = (d, int_term, hint)
+    return d
+
+
+def number_named(x):
+    e = DIGIT_CONSTS.get(x.get_id()) if z3.is_expr(x) else None
+    return None if e is None or not e[0].eq(x) else e[1]
+
+
+def number_format(x):
+    """'num' for str(n) / '%i' % n, 'pad3' for '%0.3i' % n (None when x is not a named number)."""
+    e = DIGIT_CONSTS.get(x.get_id()) if z3.is_expr(x) else None
+    return None if e is None or not e[0].eq(x) else e[2]
+
+
+def _is_digits_term(x):
+    """terms that denote ASCII decimal text by construction: str(int) and zero padded numbers."""
+    if not z3.is_app(x):
+        return False
+    if number_named(x) is not None:
+        return True
+    k = x.decl().kind()
+    if k == z3.Z3_OP_INT_TO_STR:
+        return True
+    if k == z3.Z3_OP_ITE:
+        return all(_is_digits_term(c) or (z3.is_string_value(c)) or _is_digits_concat(c) for c in x.children()[1:])
+    return False
+
+
+def _is_digits_concat(x):
+    return z3.is_app(x) and x.decl().kind() == z3.Z3_OP_SEQ_CONCAT and all(
+        z3.is_string_value(c) or _is_digits_term(c) for c in x.children())
+
+
+def mk_concat(pieces):
+    ts = [z3.StringVal(p) if isinstance(p, str) else p for p in pieces]
+    if not ts:
+        return z3.StringVal("")
+    return z3.Concat(*ts) if len(ts) > 1 else ts[0]
+
+
+def utf8_struct(I, t):
+    """utf8(t) distributed over the pieces of t: constants are encoded natively, decimal text is ASCII, every other
+    piece l becomes the uninterpreted utf8(l)."""
+    f = I.ufun("utf8", z3.StringSort(), z3.StringSort())
+    out = []
+    for p in flatten(t):
+        if isinstance(p, str):
+            out.append(p.encode("utf-8").decode("latin-1"))
+        elif _is_digits_term(p):
+            out.append(p)
+        else:
+            out.append(f(p))
+    return mk_concat(out)
+
+
+def bytesum_struct(I, t):
+    """sum(bytes) distributed over the pieces."""
+    f = I.ufun("bytesum", z3.StringSort(), z3.IntSort())
+    acc = z3.IntVal(0)
+    for p in flatten(t):
+        if isinstance(p, str):
+            acc = acc + sum(ord(c) for c in p)
+        else:
+            I.ctx.assume(SBool(f(p) >= 0))
+            acc = acc + f(p)
+    return acc  # (not simplified: the pieces must stay syntactically the terms the specification talks about)
+
+
+def sumord_struct(I, t):
+    """sum(ord(c) for c in t) distributed over the pieces."""
+    f = I.ufun("sumord", z3.StringSort(), z3.IntSort())
+    acc = z3.IntVal(0)
+    for p in flatten(t):
+        if isinstance(p, str):
+            acc = acc + sum(ord(c) for c in p)
+        else:
+            I.ctx.assume(SBool(f(p) >= 0))
+            acc = acc + f(p)
+    return acc
+
+
+# ---------------------------------------------------------------------------
 # regex search (the one pattern the code uses)
 # ---------------------------------------------------------------------------
 
